@@ -4,4 +4,5 @@ import UnifexModel.Core.Admit
 import UnifexModel.Driver.Registry
 import UnifexModel.Props.C01
 import UnifexModel.Props.C03
+import UnifexModel.Props.C04
 import UnifexModel.Props.C05
